@@ -20,16 +20,28 @@ func (w *dnsWorld) on(mode int) bool { return w.mode == mode }
 // classifyForeign names the way a scripted answer for another question reached
 // a resolution of the victim's question.
 func (w *dnsWorld) classifyForeign(name int, qtype uint16, a *dnsAns) (cls string) {
-	if a == nil {
+	return w.classifyForeignQ(name, qtype, a, -1, 0)
+}
+
+// classifyForeignQ: a may be nil when the foreign reply carried no answer records
+// (SERVFAIL, truncated); it is then identified by its question (fname, ftype).
+func (w *dnsWorld) classifyForeignQ(name int, qtype uint16, a *dnsAns, fname int, ftype uint16) (cls string) {
+	if a == nil && fname < 0 {
 		return "unattributed"
 	}
-	if a.wrongFor != nil {
+	match := func(sr *dnsSent) bool {
+		if a != nil {
+			return sr.ans == a
+		}
+		return sr.ans == nil && sr.q.name == fname && sr.q.qtype == ftype
+	}
+	if a != nil && a.wrongFor != nil {
 		return "upstream-answered-other-question"
 	}
 	cls = "unattributed"
 	crossed := false
 	for _, sr := range w.sent {
-		if sr.ans == a {
+		if match(sr) {
 			crossed = true
 		}
 	}
@@ -40,7 +52,7 @@ func (w *dnsWorld) classifyForeign(name int, qtype uint16, a *dnsAns) (cls strin
 		}
 	}()
 	for _, sr := range w.sent {
-		if sr.ans != a {
+		if !match(sr) {
 			continue
 		}
 		// queries for the victim's question on the transport that carried this copy
@@ -87,6 +99,8 @@ func (w *dnsWorld) checkReply(op *dnsOp, m *dnsmessage.Msg) {
 		cls := "no-foreign-answer"
 		if foreign != nil {
 			cls = w.classifyForeign(op.name, op.qtype, foreign)
+		} else if len(m.Question) == 1 {
+			cls = w.classifyForeignQ(op.name, op.qtype, nil, w.nameIndex(m.Question[0].Name), m.Question[0].Qtype)
 		}
 		s.Failf("c09-wrong-question-delivered@"+cls, "client c%d asked %s %s (id %d) and received a reply whose question section is %s%s", op.cli, op.qname,
 			dnsmessage.TypeToString[op.qtype], op.id, dnsQuestionString(m), w.describeForeign(foreign))
